@@ -53,6 +53,8 @@ def run_script(exe, work, idx, edge, creds=None, writecap=0):
     opts = OPTS[(idx // 3) % len(OPTS)] if creds is None else ["use_first_pass"]
     if r["body"] >= 250 and "debug" not in opts:          # long replies always also with the debug log on
         opts = opts + ["debug"]
+    if s.get("prompt") == "slow":     # the script is about the conversation: the password must come from it
+        opts = [o for o in opts if o not in ("use_first_pass", "try_first_pass")]
     mode = "conv" if "use_first_pass" not in opts and "try_first_pass" not in opts else "stack"
     d = os.path.join(work, "c%d" % idx)
     os.makedirs(d, exist_ok=True)
@@ -133,7 +135,7 @@ def run_script(exe, work, idx, edge, creds=None, writecap=0):
     if writecap:
         env["PAMDRV_WRITECAP"] = str(writecap)
     prompt_ms = 0
-    if creds is None and mode == "conv" and idx % 4 == 1:   # the conversation takes longer than the socket timeout
+    if s.get("prompt") == "slow" and mode == "conv":   # the conversation takes longer than the socket timeout
         prompt_ms = TIMEOUT_S * 1000 + 500
         env["PAMDRV_PROMPT_DELAY_MS"] = str(prompt_ms)
     t0 = time.time()
